@@ -99,6 +99,10 @@ pub fn representatives() -> Vec<Val> {
         Val::Float(2.5f64.to_bits()),
         Val::Type(type_to_u8(GarnishDataType::Number)),
         Val::Type(type_to_u8(GarnishDataType::List)),
+        // type values that *name* a false kind are themselves true
+        Val::Type(type_to_u8(GarnishDataType::Unit)),
+        Val::Type(type_to_u8(GarnishDataType::False)),
+        Val::Type(type_to_u8(GarnishDataType::Type)),
         Val::Char('a'),
         Val::Byte(7),
         Val::Text("".into()),
@@ -122,6 +126,9 @@ pub fn representatives() -> Vec<Val> {
         Val::Partial(b(Val::Int(5)), b(Val::Int(6))),
         Val::List(vec![]),
         Val::List(vec![Val::Int(1)]),
+        // containers of false values are themselves true
+        Val::List(vec![Val::Unit]),
+        Val::pair(Val::Unit, Val::False),
         Val::List(vec![Val::Int(1), Val::Int(2), Val::Int(3)]),
         Val::List(vec![Val::pair(sym("ka"), Val::Int(1)), Val::pair(sym("kb"), Val::List(vec![Val::Int(2)]))]),
         Val::Expr(0),
